@@ -33,7 +33,7 @@ structure TokenResp (EF : Type) where
   refreshToken : Option Bytes
   scopes : Option (List Bytes)
   extra : EF
-deriving Repr
+deriving Repr, DecidableEq
 
 /-- `token_type`: lower-case (ASCII by the model, otherwise the external Unicode tables), then `BasicTokenType::from_str` -/
 def decTokenType (ext : Bytes → Bytes) : Dec TokenType :=
